@@ -9,6 +9,7 @@ import (
 	"time"
 
 	hg "github.com/mosaicnetworks/babble/src/hashgraph"
+	bnet "github.com/mosaicnetworks/babble/src/net"
 	_state "github.com/mosaicnetworks/babble/src/node/state"
 )
 
@@ -148,6 +149,7 @@ func runDyn(o *Opts) *Summary {
 	var w *World
 	joins, leaves, refused := 0, 0, 0
 	sigInj := map[string]int{}
+	ffJoins := 0
 	for t := 0; t < o.Traces; t++ {
 		n0 := o.N
 		if n0 == 0 {
@@ -181,6 +183,7 @@ func runDyn(o *Opts) *Summary {
 		ops := []*pendingOp{}
 		left := []*NNode{}
 		nextOp := 30 + w.rng.Intn(40)
+		quiet, quietLeft := 0, 0
 		// Byzantine validators (only their block-signature payloads are hostile):
 		// one genesis validator when there are at least four, and every joiner
 		byz := map[int]bool{}
@@ -227,7 +230,8 @@ func runDyn(o *Opts) *Summary {
 						}
 						via := validators[w.rng.Intn(len(validators))]
 						accept := w.rng.Intn(5) > 0 || growth
-						j := vn.NewNode(p, gen, []int{via.num}, NodeOpts{Store: "inmem", Cache: o.Cache, SyncLimit: 40})
+						fsync := o.Arg == "fastsync" && w.rng.Intn(3) > 0
+						j := vn.NewNode(p, gen, []int{via.num}, NodeOpts{Store: "inmem", Cache: o.Cache, SyncLimit: 40, FastSync: fsync})
 						j.node.Init()
 						vn.emitNodeUp(j, "join")
 						ops = append(ops, vn.startJoin(j, via, accept))
@@ -252,10 +256,19 @@ func runDyn(o *Opts) *Summary {
 					nextOp = k + 20 + w.rng.Intn(25)
 				}
 			}
-			// gossip among nodes that are babbling
+			// gossip among nodes that are babbling; now and then one of them stays
+			// quiet for a few rounds (it creates no event in those rounds)
+			if quietLeft > 0 {
+				quietLeft--
+			} else if w.rng.Intn(60) == 0 {
+				quiet = active[w.rng.Intn(len(active))].num
+				quietLeft = 15 + w.rng.Intn(30)
+			} else {
+				quiet = 0
+			}
 			bab := []*NNode{}
 			for _, n := range active {
-				if n.State() == "Babbling" {
+				if n.State() == "Babbling" && n.num != quiet {
 					bab = append(bab, n)
 				}
 			}
@@ -269,6 +282,87 @@ func runDyn(o *Opts) *Summary {
 				vn.Monologue(bab[0])
 			}
 			ops = vn.poll(ops)
+			// joiners with fast-sync enabled are CatchingUp once accepted: they reset
+			// from their peer's anchor (the join's own set is still pending then)
+			for _, n := range active {
+				if n.State() == "CatchingUp" && !vn.pendingFor(ops, n) {
+					trusted := map[string]bool{}
+					for _, pr := range n.core.Peers().Peers {
+						trusted[canonKey(pr.PubKeyHex)] = true
+					}
+					for _, pr := range n.core.GenesisPeers().Peers {
+						trusted[canonKey(pr.PubKeyHex)] = true
+					}
+					// a few tampered responses first (they must be refused), among them the
+					// one topped up with signatures of known non-members
+					tams := ffTamperings()
+					adoptedTampered := false
+					for q := 0; q < 3 && !adoptedTampered; q++ {
+						tm := tams[w.rng.Intn(len(tams))]
+						if q == 0 {
+							for _, cand := range tams {
+								if cand.name == "sigs-member-minority-topped-up-by-known-non-members" {
+									tm = cand
+								}
+							}
+						}
+						adoptedTampered = vn.tryFF(n, tm.name, func(server *NNode, resp *bnet.FastForwardResponse) { tm.f(resp, w) }, trusted)
+					}
+					if adoptedTampered {
+						continue
+					}
+					if !vn.tryFF(n, "none", nil, trusted) {
+						// no anchor yet, or refused: fall back to babbling from scratch
+						n.node.VTransition(_state.Babbling)
+					} else {
+						ffJoins++
+					}
+				}
+			}
+			// a node with history (it knows former validators and later joiners) is
+			// sent back to CatchingUp and offered tampered responses, then a valid one
+			if o.Arg == "fastsync" && k%110 == 70 {
+				olds := []*NNode{}
+				for _, n := range active {
+					if n.State() == "Babbling" && n.store.LastBlockIndex() > 3 && !vn.pendingFor(ops, n) {
+						olds = append(olds, n)
+					}
+				}
+				if len(olds) > 1 {
+					g := olds[w.rng.Intn(len(olds))]
+					trusted := map[string]bool{}
+					for _, pr := range g.core.Peers().Peers {
+						trusted[canonKey(pr.PubKeyHex)] = true
+					}
+					for _, pr := range g.core.GenesisPeers().Peers {
+						trusted[canonKey(pr.PubKeyHex)] = true
+					}
+					for _, pr := range g.core.Validators().Peers {
+						trusted[canonKey(pr.PubKeyHex)] = true
+					}
+					g.node.VTransition(_state.CatchingUp)
+					w.Emit(g.num, "StateChange", map[string]interface{}{"from": "Babbling", "to": "CatchingUp", "why": "driver"}, nil)
+					tams := ffTamperings()
+					adopted := false
+					for q := 0; q < 2 && !adopted; q++ {
+						tm := tams[w.rng.Intn(len(tams))]
+						if q == 0 {
+							for _, cand := range tams {
+								if cand.name == "sigs-member-minority-topped-up-by-known-non-members" {
+									tm = cand
+								}
+							}
+						}
+						adopted = vn.tryFF(g, tm.name, func(server *NNode, resp *bnet.FastForwardResponse) { tm.f(resp, w) }, trusted)
+					}
+					if !adopted && vn.tryFF(g, "none", nil, trusted) {
+						ffJoins++
+					}
+					if g.State() != "Babbling" {
+						g.node.VTransition(_state.Babbling)
+					}
+				}
+			}
 			// Byzantine signature payloads
 			if k%9 == 4 {
 				cands := []*NNode{}
@@ -332,6 +426,7 @@ func runDyn(o *Opts) *Summary {
 	s.Extra["joins"] = joins
 	s.Extra["leaves"] = leaves
 	s.Extra["refused_by_app"] = refused
+	s.Extra["valid_adopted"] = ffJoins
 	s.Extra["adversarial_signature_events"] = sigInj
 	s.Traces = o.Traces
 	s.Lines = w.lines
